@@ -116,10 +116,11 @@ class Interp(Engine):
             'df': dfmod, 'dfu': Module('dfu', util_members),
             'collections': Module('collections', {'abc': abc, 'namedtuple': Builtin('namedtuple', s.namedtuple_)}),
             'itertools': Module('itertools', {'product': Builtin('product', s.it_product)}),
+            'spfft': Module('spfft', {'fftfreq': Builtin('fftfreq', lambda a, k: s.fftfreq_(a, k, False)),
+                                      'rfftfreq': Builtin('rfftfreq', lambda a, k: s.fftfreq_(a, k, True))}),
             'warnings': Module('warnings', {'warn': Builtin('warn', lambda a, k: None)}),
             'contextlib': Module('contextlib', {'suppress': Builtin('suppress', lambda a, k: ('suppress', a))}),
             'functools': Module('functools', {}),
-            'spfft': Module('spfft', {}),
             'tuple': TypeTag('tuple'), 'list': TypeTag('list'), 'str': TypeTag('str'), 'int': TypeTag('int'),
             'dict': TypeTag('dict'), 'float': TypeTag('float'), 'bool': TypeTag('bool'), 'set': TypeTag('set'),
             'complex': TypeTag('complex'), 'object': TypeTag('object'), 'slice': Builtin('slice', lambda a, k: slice(*a)),
@@ -243,7 +244,30 @@ class Interp(Engine):
             return TypeTag('ndarray')
         return TypeTag('typeof')
 
+    def fftfreq_(s, a, k, real):
+        """[A] scipy.fft.fftfreq(n, d): n sample frequencies [0, 1, .., (n-1)//2, -(n//2), .., -1] / (n d);
+        rfftfreq(n, d): [0, 1, .., n//2] / (n d).  A symbolic-length sequence with its extremes known in closed form."""
+        n = s.pyscalar(a[0])
+        d = a[1] if len(a) > 1 else k.get('d', 1.0)
+        nd = s.arith('*', n, d)
+        half = s.arith('//', n, 2)
+        if real:
+            seq = SymSeq(s.arith('+', half, 1), lambda j: s.arith('/', s.to_float(j), nd), 'rfftfreq')
+            seq.min_term, seq.max_term = 0.0, s.arith('/', s.to_float(half), nd)
+        else:
+            top = s.arith('//', s.arith('-', n, 1), 2)           # (n-1)//2 : index of the largest frequency
+
+            def elem(j):
+                neg = s.arith('-', j, n)
+                return s.arith('/', s.to_float(s.ite(s.cmp('<=', j, top), j, neg)), nd)
+            seq = SymSeq(n, elem, 'fftfreq')
+            seq.min_term = s.arith('/', s.to_float(s.neg(half)), nd)
+            seq.max_term = s.arith('/', s.to_float(top), nd)
+        return seq
+
     def minmax(s, a, which):
+        if len(a) == 1 and isinstance(a[0], SymSeq) and hasattr(a[0], 'min_term'):
+            return a[0].min_term if which == 'min' else a[0].max_term
         xs = s.iter_(a[0]) if len(a) == 1 else list(a)
         if any(isinstance(x, TypeTag) for x in xs):
             order = ['bool', 'int', 'float', 'complex']
